@@ -246,13 +246,32 @@ fn recover(
         for i in &ins {
             r.model.leaf_changed_epoch.insert(*i, 1001);
         }
-        let cont = [
-            Step::Session { ops, by_drop: false },
+        // The external world moves on and the recovered engine is asked to
+        // refresh: every external input it holds (all of them were queried
+        // above) must be read again, so its registry of external inputs has to
+        // be as complete as its nodes.
+        let mut cont: Vec<Step> = Vec::new();
+        let mut ops = ops;
+        if !xts.is_empty() {
+            for x in &xts {
+                let mut w: Vec<i64> = r.model.world.get(x).map_or_else(Vec::new, |v| v.to_vec());
+                if let Some(first) = w.first_mut() {
+                    *first += 1;
+                }
+                cont.push(Step::World(*x, w));
+            }
+            ops.insert(0, SessOp::Refresh);
+        }
+        cont.push(Step::Session { ops, by_drop: false });
+        for x in &xts {
+            cont.push(Step::Query(*x));
+        }
+        cont.extend([
             Step::Query(n - 1),
             Step::Restart,
             Step::Query(n - 1),
             Step::Query(prog.queryable(n / 2)),
-        ];
+        ]);
         for st in &cont {
             r.step(st).await;
         }
